@@ -86,6 +86,13 @@ CLAIMED["C06"] = (
     "are compared with an independently written geometric oracle (per-segment quadrilaterals, separating axes).",
     "shapely and STRtree replaced by shapely-lite / STRtree-lite (closed-set predicates, exact discs); lanelets of <= 3 "
     "vertices; query rectangles axis-parallel; known finding: Circle.shapely_object has half the radius", "2/C06")
+CLAIMED["C07"] = (
+    "assign_obstacles_to_lanelets, add_objects and remove_obstacle run on a scenario with three edge-adjacent lanelets and a "
+    "static / dynamic obstacle at symbolic positions; the recorded centre- and shape-lanelet sets, the per-time-step assignments "
+    "and every lanelet registry are compared by the solver with the geometric truth, and add / assign / remove programs keep "
+    "the registries the exact inverse of the assignment; removal of a contained obstacle must not raise.",
+    "axis-parallel rectangular obstacle shapes; one symbolic position per obligation; programs of 2 (quick) / 3 (thorough) "
+    "operations; shapely replaced by shapely-lite; reader-side assignment not covered", "2/C07")
 NOT_YET = {}
 
 props = [json.loads(l) for l in open(os.path.join(ROOT, "properties.jsonl"))]
